@@ -130,6 +130,20 @@ func errsOut(l gqlerror.List) []ErrOut {
 	return out
 }
 
+// presentedOut is errsOut for the errors of executed payloads: the server's error presenter (installed by
+// RunCase) marks every error it presents; an error that reaches a payload unmarked did not pass through it
+func presentedOut(l gqlerror.List) []ErrOut {
+	out := []ErrOut{}
+	for _, e := range l {
+		m := e.Message
+		if e.Extensions == nil || e.Extensions["presented"] != true {
+			m = "NOT PRESENTED BY THE SERVER'S ERROR PRESENTER: " + m
+		}
+		out = append(out, ErrOut{Message: m, Path: PathString(e.Path)})
+	}
+	return out
+}
+
 // RunCase executes one case through graphql/executor against the generated schema.
 func RunCase(es graphql.ExecutableSchema, c Case) Result {
 	if c.VarsJSON != "" {
@@ -153,6 +167,15 @@ func RunCase(es graphql.ExecutableSchema, c Case) Result {
 	if c.Introspection {
 		ex.Use(introspectionOn{})
 	}
+	// a configured error presenter: every error of every payload (initial and deferred) goes through it
+	ex.SetErrorPresenter(func(ctx context.Context, err error) *gqlerror.Error {
+		e := graphql.DefaultErrorPresenter(ctx, err)
+		if e.Extensions == nil {
+			e.Extensions = map[string]any{}
+		}
+		e.Extensions["presented"] = true
+		return e
+	})
 	if c.Around {
 		ex.AroundFields(Around)
 		res.Around = true
@@ -202,7 +225,7 @@ func RunCase(es graphql.ExecutableSchema, c Case) Result {
 				break
 			}
 			// the generated response function reuses one buffer for every event of a subscription
-			p := Payload{Data: append(json.RawMessage(nil), resp.Data...), Errors: errsOut(resp.Errors), Label: resp.Label, Path: PathString(resp.Path), HasNext: resp.HasNext}
+			p := Payload{Data: append(json.RawMessage(nil), resp.Data...), Errors: presentedOut(resp.Errors), Label: resp.Label, Path: PathString(resp.Path), HasNext: resp.HasNext}
 			if resp.Data == nil {
 				p.Data = nil
 			}
